@@ -5,7 +5,7 @@ from .. import core, gen, impl_thr, scen
 from . import c01
 
 ID = "C06"
-BUDGET = {"quick": 600, "thorough": 60000}
+BUDGET = {"quick": 2400, "thorough": 300000}
 RULE = ("scenario = scheduler with 1-4 jobs of all types and once() of all four kinds, max_attempts in {0,1,2,3,7}, some with stop, "
         "failing callbacks (20%), forced polls (20%), polls long after the due time; 3-12 polls; Spec per snapshot: attempts = "
         "number of invocations so far, attempts <= max_attempts, a registered job has attempts left, the call performing the n-th "
